@@ -40,6 +40,7 @@ import (
 	"github.com/lightninglabs/neutrino/blockntfns"
 	"github.com/lightninglabs/neutrino/headerfs"
 	"github.com/lightninglabs/neutrino/internal/verifbubble"
+	"github.com/lightninglabs/neutrino/internal/verifdetrt"
 	"github.com/lightninglabs/neutrino/internal/verifchain"
 	"github.com/lightninglabs/neutrino/internal/verifeng"
 	"github.com/lightninglabs/neutrino/internal/verifhfs"
@@ -1166,6 +1167,11 @@ type nodeMode struct {
 	delaysAtStopOnly bool
 	onlyStops        bool // no deviation but Stop (and a scheduler deviation in its step)
 	gap              bool // long chain whose last blocks are days apart (client not current after 2000 headers)
+	// every step may carry one preemption at a synchronisation point of
+	// these classes (verifdetrt.Sync*; DESIGN 3.9)
+	sync uint32
+	// the in-burst deviations are the only ones (no stimulus out of turn)
+	onlyBurst bool
 }
 
 var nodeModes = map[string]nodeMode{
@@ -1176,6 +1182,11 @@ var nodeModes = map[string]nodeMode{
 	"C04D": {name: "C04", behaviours: []string{"honest", "silent", "invalid-header", "lighter-fork", "false-cfheaders",
 		"garbage", "drops-on-cf", "drops-after-handshake", "garbage-after-verack"}, converge: true, delays: true},
 	"C13": {name: "C13", behaviours: []string{"no-cf-service", "no-witness", "bad-block", "bad-witness", "slow-handshake", "false-cfheaders", "false-prev-header"}, calls: true},
+	// the enforcement part with one preemption at a go statement or mutex
+	// operation: a goroutine started by the ban path may run before the
+	// statements that follow its go statement
+	"C13P": {name: "C13", behaviours: []string{"bad-block", "bad-witness", "no-cf-service", "false-cfheaders"}, calls: true,
+		sync: verifdetrt.SyncSpawn | verifdetrt.SyncMutex, onlyBurst: true},
 	"C17": {name: "C17", behaviours: []string{"honest", "silent", "false-cfheaders", "drops-on-cf"}, stops: true, calls: true},
 	"C15": {name: "C15", behaviours: []string{"honest"}, noEarly: true},
 	// C03 on a chain long enough for filter checkpoints: the liar's false
@@ -1351,8 +1362,14 @@ func nodeRun(c *verifeng.Chooser, f *nodeFix, env *verifhfs.Env, mode nodeMode, 
 	steps := 0
 	stopNow := false
 	lastProgress := ""
-	if mode.delays || mode.delaysAtStopOnly {
+	if mode.delays || mode.delaysAtStopOnly || mode.sync != 0 {
 		h.burst = verifbubble.NewBurst(c)
+		if h.burst != nil && mode.sync != 0 {
+			h.burst.Sync = mode.sync
+			if !mode.delays && !mode.delaysAtStopOnly {
+				h.burst.NoSched, h.burst.NoSelect = true, true
+			}
+		}
 	}
 	for !c.Failed() {
 		verifbubble.Wait()
@@ -1421,7 +1438,7 @@ func nodeRun(c *verifeng.Chooser, f *nodeFix, env *verifhfs.Env, mode nodeMode, 
 		case len(acts) > 0:
 			menu = append(menu, acts[0])
 			for _, a := range acts[1:] {
-				if mode.onlyStops {
+				if mode.onlyStops || mode.onlyBurst {
 					break
 				}
 				a.cost = 1
@@ -1472,19 +1489,19 @@ func nodeRun(c *verifeng.Chooser, f *nodeFix, env *verifhfs.Env, mode nodeMode, 
 		}
 		// deviations
 		if len(acts) > 0 {
-			if next < len(script) && !mode.noEarly && !mode.onlyStops {
+			if next < len(script) && !mode.noEarly && !mode.onlyStops && !mode.onlyBurst {
 				menu = append(menu, nodeAct{name: script[next].name + " (while the node is busy)", cost: 1, run: fire(script[next])})
 			}
 			// the honest remote of the statement answers promptly:
 			// time only passes while nothing is waiting for it
-			if !h.honestBusy() && !mode.noEarly && !mode.onlyStops {
+			if !h.honestBusy() && !mode.noEarly && !mode.onlyStops && !mode.onlyBurst {
 				menu = append(menu, nodeAct{name: "5 s pass (while requests are pending)", cost: 1, run: func() { time.Sleep(5 * time.Second) }})
 			}
 		}
 		for _, p := range h.peers {
 			cn := h.liveConn(p)
 			// the honest remote of the statement stays connected
-			if cn == nil || !cn.ready || p.name == "H" || mode.noEarly || mode.onlyStops {
+			if cn == nil || !cn.ready || p.name == "H" || mode.noEarly || mode.onlyStops || mode.onlyBurst {
 				continue
 			}
 			menu = append(menu, nodeAct{name: p.name + " drops the connection", cost: 1, run: func() { p.dropped = true; cn.c.Close() }})
@@ -2234,6 +2251,13 @@ func runNode(t *testing.T, harness, modeName string) {
 			cfgs = []nodeCfg{{3, 1}, {2, 2}}
 		}
 	}
+	if modeName == "C13P" {
+		// one preemption, every pair of adversaries (on one host)
+		cfgs = []nodeCfg{{1, 2}}
+		if tier == "thorough" {
+			cfgs = []nodeCfg{{1, 1}, {2, 2}}
+		}
+	}
 	if modeName == "C17L" {
 		// Stop (alone, or overlapping the next answer in either
 		// order) is the only deviation
@@ -2296,6 +2320,7 @@ func runNode(t *testing.T, harness, modeName string) {
 func TestVFXC04(t *testing.T)  { runNode(t, "C04-node", "C04") }
 func TestVFXC04D(t *testing.T) { runNode(t, "C04-node-delays", "C04D") }
 func TestVFXC13N(t *testing.T) { runNode(t, "C13-node", "C13") }
+func TestVFXC13P(t *testing.T) { runNode(t, "C13-node-preemptions", "C13P") }
 func TestVFXC17(t *testing.T)  { runNode(t, "C17-node", "C17") }
 func TestVFXC17L(t *testing.T) { runNode(t, "C17-long-chain", "C17L") }
 func TestVFXC15N(t *testing.T) { runNode(t, "C15-node", "C15") }
